@@ -4,9 +4,10 @@
 
   Lengths are scaled; flex factors (`flex_grow`, `flex_shrink`), enums, flags, `order` and the child index are not.
   `FlexItem.content_flex_fraction` is the one field of MIXED dimension: `determine_container_main_size` sets it to
-  `diff / max(1, flex_grow)` (a length) when `diff > 0` and to `diff / max(1, flex_shrink · inner_flex_basis)` when
-  `diff < 0` — a pure number when the product is ≥ 1, a length when the floor `1` applies.  `cffScale` scales it
-  accordingly (the field is read by the same function only).
+  `diff / max(1, flex_grow)` (a length) when `diff > 0` and to `diff / (max(1, flex_shrink) · inner_flex_basis)` (a
+  pure number: a length over a length; `0` when the scaled shrink factor is not positive) when `diff < 0`.  The sign
+  tells which: `cffScale` scales a positive fraction as a length and leaves a negative one alone (the field is read by
+  the same function only).
 -/
 import TaffyVerif.Lemmas.ScaleFlexLine
 import TaffyVerif.Lemmas.ScaleAbs
@@ -20,16 +21,16 @@ set_option linter.unusedSimpArgs false
 namespace C04
 open Scalable FlexModel FlexStages
 
-/-- how `content_flex_fraction` scales: unchanged when it is the (dimensionless) shrink fraction `diff / (flex_shrink ·
-inner_flex_basis)`, as a length otherwise -/
-def cffScale (k cff shrink innerBasis : Rat) : Rat :=
-  if cff < 0 ∧ 1 ≤ shrink * innerBasis then cff else scale k cff
+/-- how `content_flex_fraction` scales: unchanged when it is negative (the dimensionless shrink fraction
+`diff / (max(1, flex_shrink) · inner_flex_basis)`), as a length otherwise -/
+def cffScale (k cff : Rat) : Rat :=
+  if cff < 0 then cff else scale k cff
 
-@[scale_simp] theorem cffScale_zero (k s b : Rat) : cffScale k 0 s b = 0 := by
-  simp only [cffScale, lt_self_iff_false, false_and, if_false, scale_zero]
+@[scale_simp] theorem cffScale_zero (k : Rat) : cffScale k 0 = 0 := by
+  simp only [cffScale, lt_self_iff_false, if_false, scale_zero]
 
 instance : Scalable (FlexItem Rat) :=
-  ⟨fun k x => ⟨x.nodeIdx, x.order, scale k x.size, scale k x.minSize, scale k x.maxSize, x.alignSelf, x.overflow, scale k x.scrollbarWidth, x.flexShrink, x.flexGrow, scale k x.resolvedMinimumMainSize, scale k x.inset, scale k x.margin, x.marginIsAuto, scale k x.padding, scale k x.border, scale k x.flexBasis, scale k x.innerFlexBasis, scale k x.violation, x.frozen, cffScale k x.contentFlexFraction x.flexShrink x.innerFlexBasis, scale k x.hypotheticalInnerSize, scale k x.hypotheticalOuterSize, scale k x.targetSize, scale k x.outerTargetSize, scale k x.baseline, scale k x.offsetMain, scale k x.offsetCross⟩⟩
+  ⟨fun k x => ⟨x.nodeIdx, x.order, scale k x.size, scale k x.minSize, scale k x.maxSize, x.alignSelf, x.overflow, scale k x.scrollbarWidth, x.flexShrink, x.flexGrow, scale k x.resolvedMinimumMainSize, scale k x.inset, scale k x.margin, x.marginIsAuto, scale k x.padding, scale k x.border, scale k x.flexBasis, scale k x.innerFlexBasis, scale k x.violation, x.frozen, cffScale k x.contentFlexFraction, scale k x.hypotheticalInnerSize, scale k x.hypotheticalOuterSize, scale k x.targetSize, scale k x.outerTargetSize, scale k x.baseline, scale k x.offsetMain, scale k x.offsetCross⟩⟩
 
 @[scale_simp] theorem fxi_nodeIdx (k : Rat) (x : FlexItem Rat) : (scale k x).nodeIdx = x.nodeIdx := rfl
 @[scale_simp] theorem fxi_order (k : Rat) (x : FlexItem Rat) : (scale k x).order = x.order := rfl
@@ -51,7 +52,7 @@ instance : Scalable (FlexItem Rat) :=
 @[scale_simp] theorem fxi_innerFlexBasis (k : Rat) (x : FlexItem Rat) : (scale k x).innerFlexBasis = scale k x.innerFlexBasis := rfl
 @[scale_simp] theorem fxi_violation (k : Rat) (x : FlexItem Rat) : (scale k x).violation = scale k x.violation := rfl
 @[scale_simp] theorem fxi_frozen (k : Rat) (x : FlexItem Rat) : (scale k x).frozen = x.frozen := rfl
-@[scale_simp] theorem fxi_contentFlexFraction (k : Rat) (x : FlexItem Rat) : (scale k x).contentFlexFraction = cffScale k x.contentFlexFraction x.flexShrink x.innerFlexBasis := rfl
+@[scale_simp] theorem fxi_contentFlexFraction (k : Rat) (x : FlexItem Rat) : (scale k x).contentFlexFraction = cffScale k x.contentFlexFraction := rfl
 @[scale_simp] theorem fxi_hypotheticalInnerSize (k : Rat) (x : FlexItem Rat) : (scale k x).hypotheticalInnerSize = scale k x.hypotheticalInnerSize := rfl
 @[scale_simp] theorem fxi_hypotheticalOuterSize (k : Rat) (x : FlexItem Rat) : (scale k x).hypotheticalOuterSize = scale k x.hypotheticalOuterSize := rfl
 @[scale_simp] theorem fxi_targetSize (k : Rat) (x : FlexItem Rat) : (scale k x).targetSize = scale k x.targetSize := rfl
@@ -60,7 +61,7 @@ instance : Scalable (FlexItem Rat) :=
 @[scale_simp] theorem fxi_offsetMain (k : Rat) (x : FlexItem Rat) : (scale k x).offsetMain = scale k x.offsetMain := rfl
 @[scale_simp] theorem fxi_offsetCross (k : Rat) (x : FlexItem Rat) : (scale k x).offsetCross = scale k x.offsetCross := rfl
 @[scale_simp] theorem scale_fxi_mk (k : Rat) (a0 : Nat) (a1 : Nat) (a2 : Size (Option Rat)) (a3 : Size (Option Rat)) (a4 : Size (Option Rat)) (a5 : AlignItems) (a6 : Point Overflow) (a7 : Rat) (a8 : Rat) (a9 : Rat) (a10 : Rat) (a11 : Rect (Option Rat)) (a12 : Rect Rat) (a13 : Rect Bool) (a14 : Rect Rat) (a15 : Rect Rat) (a16 : Rat) (a17 : Rat) (a18 : Rat) (a19 : Bool) (a20 : Rat) (a21 : Size Rat) (a22 : Size Rat) (a23 : Size Rat) (a24 : Size Rat) (a25 : Rat) (a26 : Rat) (a27 : Rat) :
-    scale k (FlexItem.mk a0 a1 a2 a3 a4 a5 a6 a7 a8 a9 a10 a11 a12 a13 a14 a15 a16 a17 a18 a19 a20 a21 a22 a23 a24 a25 a26 a27 : FlexItem Rat) = ⟨a0, a1, scale k a2, scale k a3, scale k a4, a5, a6, scale k a7, a8, a9, scale k a10, scale k a11, scale k a12, a13, scale k a14, scale k a15, scale k a16, scale k a17, scale k a18, a19, cffScale k a20 a8 a17, scale k a21, scale k a22, scale k a23, scale k a24, scale k a25, scale k a26, scale k a27⟩ := rfl
+    scale k (FlexItem.mk a0 a1 a2 a3 a4 a5 a6 a7 a8 a9 a10 a11 a12 a13 a14 a15 a16 a17 a18 a19 a20 a21 a22 a23 a24 a25 a26 a27 : FlexItem Rat) = ⟨a0, a1, scale k a2, scale k a3, scale k a4, a5, a6, scale k a7, a8, a9, scale k a10, scale k a11, scale k a12, a13, scale k a14, scale k a15, scale k a16, scale k a17, scale k a18, a19, cffScale k a20, scale k a21, scale k a22, scale k a23, scale k a24, scale k a25, scale k a26, scale k a27⟩ := rfl
 
 instance : Scalable (FlexLineS Rat) :=
   ⟨fun k x => ⟨scale k x.items, scale k x.crossSize, scale k x.offsetCross⟩⟩
